@@ -447,7 +447,7 @@ func (f *Frame) builtin(b *ssa.Builtin, c *ssa.CallCommon, in ssa.Instruction) [
 		case *types.Array:
 			return []*Term{tb.BV(64, t.Len())}
 		case *types.Chan:
-			return f.u.freshValue("chanlen", types.Typ[types.Int])
+			return []*Term{f.chanLen(v[0])}
 		}
 	case "cap":
 		v := f.val(c.Args[0])
@@ -459,7 +459,7 @@ func (f *Frame) builtin(b *ssa.Builtin, c *ssa.CallCommon, in ssa.Instruction) [
 		case *types.Array:
 			return []*Term{tb.BV(64, t.Len())}
 		case *types.Chan:
-			return f.u.freshValue("chancap", types.Typ[types.Int])
+			return []*Term{f.chanCap(v[0])}
 		}
 	case "copy":
 		dst := f.val(c.Args[0])
@@ -589,6 +589,19 @@ func (f *Frame) appendBuiltin(c *ssa.CallCommon, in ssa.Instruction) []*Term {
 		f.cur.reach = tb.And(save, fits, tb.Not(tb.Eq(addLen, tb.BV(64, 0))))
 		f.checkWrite(s[0], dst, tb.Mul(addLen, tb.BV(64, es)), "append", in.Pos())
 		f.cur.reach = save
+	}
+	// type safety: the element written in place is an element of a []E - it cannot overlap a
+	// value of a type that holds no E (the header struct of the data structure, say)
+	if !f.spec && !s[0].IsConst() {
+		switch et.Underlying().(type) {
+		case *types.Struct, *types.Pointer, *types.Slice, *types.Array:
+			dst := tb.Add(s[1], tb.Mul(s[2], tb.BV(64, es)))
+			for _, fact := range f.u.registerTyped(et, s[0], dst) {
+				if !fact.hasBV {
+					f.u.addFact(tb.Implies(tb.And(f.cur.reach, fits), fact))
+				}
+			}
+		}
 	}
 	f.cur.mem = f.cur.mem.clone()
 	for _, so := range L.ElemSorts(et) {
@@ -1127,7 +1140,20 @@ func (f *Frame) callByContract(fn *ssa.Function, con *Contract, args [][]*Term, 
 	u.objCtr += 1 << 16
 	pre := f.cur.mem
 	st := f.evalStub(con, vals, pre, nil, limit, nil)
+	trustPre := false
+	if u.Contract != nil {
+		for _, t := range u.Contract.TrustPre {
+			if t == funcKey(fn) || t == calleeName(fn) {
+				trustPre = true
+				u.Trusted["precondition of "+con.Key()+" is assumed at its call sites in "+u.Contract.Target+" (clause trustpre)"] = true
+			}
+		}
+	}
 	for i, r := range st.requires {
+		if trustPre {
+			u.addFact(tb.Implies(f.cur.reach, r))
+			continue
+		}
 		u.addObl("pre", f.anchorFor(anchor), f.cur.reach, r, f.pos(in.Pos()), fmt.Sprintf("precondition %d of %s", i+1, con.Key()))
 	}
 	// frame: callee's assigns must be within ours
